@@ -22,6 +22,8 @@ type scenOpts struct {
 	builderTTL   bool
 	ttlCells     bool // caller may pass an explicit zero TTL cell; contexts may carry deadlines / be cancelled early
 	failPct      int
+	keys         [][]byte // key alphabet (default scenKeys)
+	errKinds     bool     // failing builders may return errors wrapping context / cache sentinel errors
 }
 
 const (
@@ -60,6 +62,7 @@ func (cfg foCfg) clockMenu() []time.Duration {
 }
 
 type scenario struct {
+	keys   [][]byte // key alphabet of the scenario (scenKeys unless overridden)
 	cfg    foCfg
 	nkeys  int
 	states []int
@@ -69,7 +72,11 @@ type scenario struct {
 }
 
 func drawScenario(c *Case, o scenOpts) *scenario {
-	sc := &scenario{cfg: drawFoCfg(c)}
+	sc := &scenario{cfg: drawFoCfg(c), keys: o.keys}
+	if sc.keys == nil {
+		sc.keys = scenKeys
+	}
+
 	if o.forceCfg != nil {
 		o.forceCfg(&sc.cfg)
 	}
@@ -119,9 +126,13 @@ func drawScenario(c *Case, o scenOpts) *scenario {
 
 	for i := 0; i < n; i++ {
 		ki := c.Pick("getkey", sc.nkeys)
-		g := &getSpec{idx: i, key: scenKeys[ki]}
+		g := &getSpec{idx: i, key: sc.keys[ki]}
 		g.ttl = ttls[c.Pick("ttl", len(ttls))]
 		g.buildFails = c.Weighted("buildFails", 100-failPct, failPct) == 1
+
+		if g.buildFails && o.errKinds {
+			g.errKind = c.Weighted("errKind", 4, 1, 1, 1, 1)
+		}
 
 		if o.skipRead {
 			g.skipRead = c.Weighted("skipRead", 9, 1) == 1
@@ -145,7 +156,7 @@ func drawScenario(c *Case, o scenOpts) *scenario {
 
 		if o.postActions {
 			g.poison = c.Weighted("poison", 2, 2, 1)
-			g.otherKey = scenKeys[c.Pick("otherKey", len(scenKeys))]
+			g.otherKey = sc.keys[c.Pick("otherKey", len(sc.keys))]
 			g.cancel = c.Bool("cancel")
 		}
 
@@ -155,11 +166,20 @@ func drawScenario(c *Case, o scenOpts) *scenario {
 	return sc
 }
 
+// key returns the k-th key of the scenario.
+func (sc *scenario) key(k int) []byte {
+	if sc.keys == nil {
+		return scenKeys[k]
+	}
+
+	return sc.keys[k]
+}
+
 func (sc *scenario) describe(c *Case) {
 	c.Tracef("config: %s", sc.cfg)
 
 	for k := 0; k < sc.nkeys; k++ {
-		c.Tracef("key %s initially %s (expired %v ago) failure-cached=%v", keyName(scenKeys[k]), ksNames[sc.states[k]], sc.ages[k], sc.prefail[k])
+		c.Tracef("key %s initially %s (expired %v ago) failure-cached=%v", keyName(sc.key(k)), ksNames[sc.states[k]], sc.ages[k], sc.prefail[k])
 		c.Class("init=" + ksNames[sc.states[k]])
 	}
 
@@ -181,7 +201,7 @@ func (w *world) prepare(sc *scenario) {
 	span := maxAge + time.Second
 
 	for k := 0; k < sc.nkeys; k++ {
-		key := scenKeys[k]
+		key := sc.key(k)
 
 		switch sc.states[k] {
 		case ksFresh:
@@ -200,10 +220,10 @@ func (w *world) prepare(sc *scenario) {
 
 	for k := 0; k < sc.nkeys; k++ {
 		if sc.prefail[k] {
-			e := &buildErr{key: string(scenKeys[k]), task: "init", n: 0}
-			w.fe.WriteFailure(bg, scenKeys[k], e)
+			e := &buildErr{key: string(sc.key(k)), task: "init", n: 0}
+			w.fe.WriteFailure(bg, sc.key(k), e)
 			w.prefailWrites++
-			w.log.builds = append(w.log.builds, &buildRec{key: string(scenKeys[k]), task: "init", getIdx: -1, err: e, enterStep: -1, exitStep: 0})
+			w.log.builds = append(w.log.builds, &buildRec{key: string(sc.key(k)), task: "init", getIdx: -1, err: e, enterStep: -1, exitStep: 0})
 		}
 	}
 }
